@@ -204,6 +204,30 @@ Theorem C20_recombinations_within_set : forall gr rr pr o ids vs cs out lines e,
 Proof. exact recombinations_within_set. Qed.
 Print Assumptions C20_recombinations_within_set.
 
+(* ================================================================ the run completes *)
+(* With recombination-cost vectors as long as the position lists (and components within the accessible
+   positions) write_recombination_list never fails on an instance. *)
+Theorem C20_recombination_entries_total : forall chromname i,
+  length (i_tv i) = length (i_positions i) -> length (i_positions i) = length (i_costs i) ->
+  (forall pc, In pc (i_comps i) -> In (fst pc) (i_positions i)) ->
+  exists es, inst_rec_entries chromname i = Some es.
+Proof. exact inst_rec_entries_total. Qed.
+Print Assumptions C20_recombination_entries_total.
+
+(* CURRENT cost computers (third finding): both return a vector of length max 1 (#positions), so a family
+   without accessible variant trips find_recombination's assertion: the run dies exactly when
+   --recombination-list is given.  Witness: a trio whose two variants are homozygous in everybody. *)
+Theorem C20_run_completes_refuted :
+  exists o ids vs cs,
+    run_wf ids cs = true /\
+    (forall ci, In ci (instances cs) ->
+       length (i_costs (snd ci)) = Nat.max 1 (length (i_positions (snd ci))) /\
+       length (i_tv (snd ci)) = length (i_positions (snd ci))) /\
+    run_current o ids vs cs = None /\
+    run_current (mkOpts (o_reads o) (o_gts o) false) ids vs cs <> None.
+Proof. exact run_completes_refuted. Qed.
+Print Assumptions C20_run_completes_refuted.
+
 (* ================================================================ non-vacuity *)
 (* the witness run is well-formed, does not crash, and under the repaired rules lists the recombination on
    chromosome 10 between VCF positions 200 and 300 and the genotype change at VCF position 400, although a
@@ -253,3 +277,11 @@ Proof.
   - vm_compute; repeat constructor; cbn; intuition discriminate.
   - eexists; vm_compute; reflexivity.
 Qed.
+
+(* hypotheses of C20_recombination_entries_total *)
+Example C20_example_total :
+  length (i_tv wit_instA) = length (i_positions wit_instA) /\
+  length (i_positions wit_instA) = length (i_costs wit_instA) /\
+  forallb (fun pc => existsb (Z.eqb (fst pc)) (i_positions wit_instA)) (i_comps wit_instA) = true /\
+  inst_rec_entries 10 wit_instA = Some [mkCE 1 10 200 300 0 1 0 0 6].
+Proof. vm_compute; auto. Qed.
